@@ -31,6 +31,7 @@ RULE = (
     "standardize_uri(u) for recognised c, u. All calls go through the real methods (monitored against the model). "
     "key = prefix-free? x how u matched (canonical / synonym / under two registered prefixes) x identifier class; "
     "non-trivial = u matched through a URI synonym, or lies under >= 2 registered prefixes, or the bijection clause ran."
+    ' One case in 61: a registry-like map (a catch-all URI prefix with 40-260 URI prefixes nested under it) asked strings that sort before, between and after the nested prefixes (round 21).'
 )
 ASSUMPTIONS = ["the model only decides prefix-freeness; the relations are between the real methods' own answers"]
 
